@@ -4,3 +4,5 @@ import Rp2.Props.C01
 #print axioms Rp2.C01.best_lot
 #print axioms Rp2.runS_spec
 #print axioms Rp2.pick_some
+#print axioms Rp2.C01.pipeline_best_lot
+#print axioms Rp2.C01.lots_sorted_by_instant_then_row
